@@ -21,6 +21,10 @@ pub struct Cfg {
     pub withdrawers: usize,
     pub depositors: usize,
     pub ops: usize,
+    /// AIMD: multiplicative decrease factor of the cap (the builder's default is 0.5)
+    pub factor: f64,
+    /// AIMD: built directly (`AimdBudget::new`) so that the cap can be read after the round
+    pub direct: bool,
 }
 
 pub fn gen(rng: &mut Prng, small: bool) -> Cfg {
@@ -35,9 +39,23 @@ pub fn gen(rng: &mut Prng, small: bool) -> Cfg {
         (rng.range(2, 8) as usize, rng.range(1, 4) as usize, *rng.pick(&[1usize, 2, 3, 50]))
     };
     if aimd {
-        Cfg { aimd, initial: max, max, min: rng.range(0, max), dep: *rng.pick(&[1u64, 1, 2, 3]), wd: rng.range(1, 2).min(max), withdrawers, depositors, ops }
+        let direct = rng.chance(0.5);
+        let factor = if direct { *rng.pick(&[0.5, 0.5, 0.25, 0.75, 0.9, 0.0, 1.0]) } else { 0.5 };
+        // now and then a large cap that two grants drain: refusals then have a long way to push the cap down
+        let (max, wd) = if direct && !small && rng.chance(0.4) { let m = *rng.pick(&[64u64, 1024]); (m, m / 2) } else { (max, rng.range(1, 2).min(max)) };
+        Cfg { aimd, initial: max, max, min: rng.range(0, max.min(4)), dep: *rng.pick(&[1u64, 1, 2, 3]), wd, withdrawers, depositors, ops, factor, direct }
     } else {
-        Cfg { aimd, initial: if rng.chance(0.15) { max + rng.range(1, 6) } else { rng.range(0, 3).min(max) }, max, min: 0, dep: 1, wd: 1, withdrawers, depositors, ops }
+        Cfg { aimd, initial: if rng.chance(0.15) { max + rng.range(1, 6) } else { rng.range(0, 3).min(max) }, max, min: 0, dep: 1, wd: 1, withdrawers, depositors, ops, factor: 0.5, direct: false }
+    }
+}
+
+/// The budget plus, for directly built AIMD budgets, a handle through which the cap can be read.
+pub fn build2(cfg: &Cfg) -> (Arc<dyn RetryBudget>, Option<Arc<tower_resilience_retry::AimdBudget>>) {
+    if cfg.aimd && cfg.direct {
+        let b = Arc::new(tower_resilience_retry::AimdBudget::new(cfg.min as usize, cfg.max as usize, cfg.dep as usize, cfg.wd as usize, cfg.factor));
+        (b.clone() as Arc<dyn RetryBudget>, Some(b))
+    } else {
+        (build(cfg), None)
     }
 }
 
@@ -74,6 +92,8 @@ pub struct History {
     pub ops: Vec<Op>,
     pub final_balance: u64,
     pub max_sampled: u64,
+    /// AIMD, directly built: the cap (current maximum) read after the round
+    pub cap_after: Option<u64>,
 }
 
 /// One concurrent round: every thread records call/return stamps from one global counter at
@@ -137,7 +157,29 @@ pub fn run_round(cfg: &Cfg, budget: Arc<dyn RetryBudget>, yield_between: bool) -
     stop.store(true, Ordering::SeqCst);
     let max_sampled = sampler.join().unwrap().max(balance_before);
     ops.sort_by_key(|o| o.call);
-    History { ops, final_balance: budget.balance() as u64, max_sampled }
+    History { ops, final_balance: budget.balance() as u64, max_sampled, cap_after: None }
+}
+
+/// The cap of an AIMD budget moves down by a factor at every refused withdrawal and up by one at
+/// every deposit. Whatever the serial order of `f` refusals and `s` deposits, starting from `cap0`
+/// it ends between "all deposits first" and "all refusals first" (both maps are monotone and a
+/// decrease applied later never leaves more): a cap outside that range means updates were lost.
+pub fn cap_range(cfg: &Cfg, cap0: u64, f: u64, s: u64) -> (u64, u64) {
+    let g = |x: u64| (((x as f64) * cfg.factor) as u64).min(x).max(cfg.min);
+    let h = |x: u64| (x + 1).min(cfg.max);
+    let rep = |mut x: u64, n: u64, m: &dyn Fn(u64) -> u64| {
+        for _ in 0..n {
+            let y = m(x);
+            if y == x {
+                break;
+            }
+            x = y;
+        }
+        x
+    };
+    let lo = rep(rep(cap0, s, &h), f, &g);
+    let hi = rep(rep(cap0, f, &g), s, &h);
+    (lo.min(hi), hi.max(lo))
 }
 
 /// Wing–Gong style search: is there a sequential order, consistent with real-time order, that
@@ -225,6 +267,17 @@ pub fn judge(cfg: &Cfg, h: &History, rep: &mut Report) -> bool {
     if h.final_balance > cfg.max || h.max_sampled > cfg.max {
         rep.violate(format!("C08:{kind}:balance-above-max"), format!("balance {} (sampled max {}) exceeds maximum {}; cfg {:?}", h.final_balance, h.max_sampled, cfg.max, cfg));
     }
+    if let Some(cap) = h.cap_after {
+        let refused = h.ops.iter().filter(|o| o.kind == Kind::Withdraw && !o.granted).count() as u64;
+        let (lo, hi) = cap_range(cfg, cfg.max.max(cfg.min), refused, deposits);
+        rep.count("aimd_caps_checked", 1);
+        if cap < lo || cap > hi {
+            rep.violate(
+                "C08:aimd:cap-not-serializable",
+                format!("after {refused} refused withdrawals and {deposits} deposits the current maximum is {cap}; every serial order of them ends in [{lo}, {hi}] (start {}, factor {}, min {}): updates of the cap were lost; cfg {:?}", cfg.max, cfg.factor, cfg.min, cfg),
+            );
+        }
+    }
     // overlap: some deposit overlaps another operation in real time
     let overlapping = h.ops.iter().any(|d| d.kind == Kind::Deposit && h.ops.iter().any(|o| o.thread != d.thread && o.call < d.ret && d.call < o.ret));
     if h.ops.len() <= 14 {
@@ -308,7 +361,9 @@ pub fn stress(sseed: u64, rounds: u64) -> Report {
     let mut last_cfg = None;
     for _ in 0..rounds {
         let cfg = gen(&mut rng, false);
-        let h = run_round(&cfg, build(&cfg), false);
+        let (b, probe) = build2(&cfg);
+        let mut h = run_round(&cfg, b, false);
+        h.cap_after = probe.map(|p| p.current_max() as u64);
         if judge(&cfg, &h, &mut rep) {
             overlapping += 1;
             sigs.insert(history_sig(&h));
@@ -340,7 +395,9 @@ pub fn miri_scenario(sseed: u64) -> Report {
     let mut rng = Prng::new(sseed);
     let cfg = gen(&mut rng, true);
     let mut rep = Report::default();
-    let h = run_round(&cfg, build(&cfg), false);
+    let (b, probe) = build2(&cfg);
+    let mut h = run_round(&cfg, b, false);
+    h.cap_after = probe.map(|p| p.current_max() as u64);
     let ov = judge(&cfg, &h, &mut rep);
     rep.nontrivial = ov;
     rep.sig = history_sig(&h);
